@@ -170,6 +170,19 @@ WriteLabelsOutcomes(st, a, names) ==
 DeleteLabelsOutcomes(st, a) ==
   OpenOutside(st, InCell(st, a), Out(ResUnit, 0, [st EXCEPT !.labels = Del(st.labels, a)]))
 
+\* read_c_string(a): follow the pointer stored on cell a and return the NUL-terminated string it points at
+\* (after a parse this is how a c-string of the pool is read).  No pointer: none.  A target outside the data or an
+\* unterminated string is an error.  The text is compared only when it is plain ASCII (the Shift-JIS decoder is lossy
+\* on arbitrary bytes); otherwise any successful result is accepted.
+ReadCStringOutcomes(st, a) ==
+  IF ~InCell(st, a) THEN { ErrOut(st), Out(ResNone, 0, st) }
+  ELSE IF ~HasKey(st.ptrs, a) THEN { Out(ResNone, 0, st) }
+  ELSE LET t == Get(st.ptrs, a) IN
+       IF t >= 0 /\ t < Size(st) /\ Terminated(st.data, t)
+       THEN LET str == CStrAt(st.data, t) IN
+            IF IsAscii(str) THEN { Out(ResVal(str), 0, st) } ELSE { Out(ResVal(<<-1>>), 0, st) }
+       ELSE { ErrOut(st) }
+
 \* ------------------------------------------------------------------ further observers and label editing
 \* (beyond the listed properties: conformance of these is reported as information, see DESIGN.md section 9)
 RemoveIdx(s, i) == SubSeq(s, 1, i - 1) \o SubSeq(s, i + 1, Len(s))
@@ -239,6 +252,8 @@ Outcomes(st, ev) ==
     [] ev.op = "write_label"     -> WriteLabelOutcomes(st, ev.a, ev.bs)
     [] ev.op = "write_labels"    -> WriteLabelsOutcomes(st, ev.a, ev.bs)
     [] ev.op = "delete_labels"   -> DeleteLabelsOutcomes(st, ev.a)
+    [] ev.op = "read_c_string"   -> ReadCStringOutcomes(st, ev.a)
+    [] ev.op = "s_read_c_string" -> AtCursor(ReadCStringOutcomes(st, ev.a), ev.a, 4)
     [] ev.op = "delete_label"    -> DeleteLabelOutcomes(st, ev.a, ev.n)
     [] ev.op = "get_labels"      -> GetLabelsOutcomes(st)
     [] ev.op = "find_label"      -> FindLabelOutcomes(st, ev.bs)
